@@ -195,6 +195,7 @@ func c06Run(env *verifsim.Env, raw json.RawMessage) *verifsim.Violation {
 	s := env.Sim
 	w := newRestWorld(env)
 	defer w.close()
+	s.SetFaultsEnabled(false) // faults belong to the workload, not to node start-up
 	w.net.Watch = []string{c06LegacyAccepted}
 	ao, po := p.Node, p.Node
 	ao.DBName, ao.SGReplicate = "adb", true
@@ -250,6 +251,7 @@ func c06Run(env *verifsim.Env, raw json.RawMessage) *verifsim.Violation {
 	if setupErr != "" {
 		panic(setupErr)
 	}
+	s.SetFaultsEnabled(true)
 
 	// readState reads a document's current state straight from the database layer (the oracle does not go through
 	// REST: view-backed handlers would dominate the run time)
